@@ -53,12 +53,15 @@ pub fn parse_offsets_text(text: &str) -> Vec<(Vec<u64>, u64)> {
 }
 
 pub fn oracle_debuginfo(w: &mut Worker, case: &Case) -> Vec<Violation> {
-    let outs = w.golden(case);
+    let all = w.golden(case);
     let mut v = vec![];
-    if outs.is_empty() || !outs[0].ok() {
+    // meta.compile = index of the compile step (default 0); the reader step follows it
+    let k = case.meta.get("compile").and_then(|x| x.as_u64()).unwrap_or(0) as usize;
+    if all.len() <= k || all[..=k].iter().any(|o| !o.ok()) {
         w.stats.probe("debuginfo:compile-failed(skip)");
         return v;
     }
+    let outs = &all[k..];
     let js = match outs[0].files.get(scen::DBG) {
         Some(j) => j,
         None => {
@@ -96,7 +99,7 @@ pub fn oracle_debuginfo(w: &mut Worker, case: &Case) -> Vec<Violation> {
         return v;
     }
     let text = String::from_utf8_lossy(&outs[1].stdout).into_owned();
-    let text = if text.is_empty() { outs[1].files.get(scen::DEC).map(|b| String::from_utf8_lossy(b).into_owned()).unwrap_or_default() } else { text };
+    let text = if text.is_empty() { outs[1].files.get(scen::DEC).or_else(|| outs[1].files.get("offsets.txt")).map(|b| String::from_utf8_lossy(b).into_owned()).unwrap_or_default() } else { text };
     let mut from_reader = parse_offsets_text(&text);
     if from_reader.len() != from_json.len() {
         w.stats.probe("debuginfo:script-count-differs(skip)");
@@ -110,7 +113,7 @@ pub fn oracle_debuginfo(w: &mut Worker, case: &Case) -> Vec<Violation> {
     // a marker that is followed by more readable data (e.g. the marker of an adjacent *empty* script)
     // as an ordinary `ins_0` instruction.  So for MSG the reader may legitimately see one extra
     // instruction exactly at the debug info's end offset.  Accept that shape (and only that).
-    if case.steps[0].argv[0] == "trumsg" {
+    if case.steps[k].argv[0] == "trumsg" {
         let mut n = 0;
         for r in from_reader.iter_mut() {
             if let Some(&last) = r.0.last() {
@@ -155,10 +158,34 @@ pub fn run(ctx: &Ctx) -> CheckResult {
         c.name = format!("debuginfo:{}", item.id);
         bases.push(c);
     }
+    // the same cross-check on real-game-like instruction streams: every bundled binary, decompiled,
+    // recompiled with debug info, read back
+    let mut bin_cases: Vec<Case> = vec![];
+    for item in ctx.corpus.binaries() {
+        let mut c = scen::binary_roundtrip_case(item, &[], None, true);
+        c.steps[1].argv.extend([s("--output-debug-info"), s(scen::DBG)]);
+        let mut argv = vec![item.cmd.clone(), s("decompile"), s("-g"), item.game.clone(), s(scen::OUT2), s("-o"), s("offsets.txt")];
+        argv.extend(scen::msg_mode_flags(item));
+        if let Some(m) = &item.mapfile {
+            argv.extend([s("-m"), m.clone()]);
+        }
+        argv.extend([s("--show-instr-offsets"), s("--no-intrinsics")]);
+        c.steps.push(Step::new(argv));
+        c.property = "C18".into();
+        c.oracle = "debuginfo".into();
+        c.name = format!("debuginfo-of-bundled:{}", item.id);
+        c.meta = json!({"compile": 1});
+        bin_cases.push(c);
+    }
+    let (_r, st0, f0, h0) = par_map(ctx, &bin_cases, |w, _, c| w.judge(c));
     let (compiles, mut stats, mut findings, mut herr) = par_map(ctx, &bases, |w, _, c| {
         w.judge(c);
         w.golden(c).get(0).map_or(false, |o| o.ok())
     });
+
+    stats.merge(st0);
+    findings.extend(f0);
+    herr.extend(h0);
 
     // fault campaign on the compile step (both outputs)
     let mut by_class: BTreeMap<String, Vec<usize>> = BTreeMap::new();
